@@ -254,7 +254,12 @@ def shapes(tier, seed):
     for i in range(n):
         prog, syms = program(rnd, i)
         bits = [8, 12, 16, 24, 32][i % 5]
-        hi = min((1 << bits) - 0x80, 0xFF00)
+        hi = (1 << bits) - 0x100
+        if bits > 16:
+            # no 16-bit address operands above 64 KiB: use data references instead
+            prog = [('data', '.4byte', [st[2]]) if st[0] == 'instr' and st[1] == 'ld16' else st for st in prog]
+        if bits < 16:
+            prog = [('data', '.2byte', [st[2]]) if st[0] == 'instr' and st[1] == 'ld16' else st for st in prog]
         consts = {k: c02.SYMS[k] for k in syms}
         consts['o0'] = (0, hi)
         for fmt in fmts:
